@@ -134,6 +134,16 @@ claim("C19",
       "the listed deviation enabled for directions on which a send was abandoned.",
       TRUST + "kernel behaviour is sampled, not enumerated; open finding C19-abandoned-send-resent-from-start",
       "TLA+ model checking (TLC) of the transport composition + TLC trace validation of real-socket executions", "4/C19")
+claim("C12",
+      "ProxyGen.tla states the call every form of a generated method must put on the wire and how replies and reply "
+      "streams must be handed on; TLC checks its laws over the whole declaration space and samples it; gen/proxy.py turns "
+      "the sampled declarations into a crate of #[proxy] traits that is compiled against /repo's macro (a compile failure "
+      "is a violation) and driven: every form (plain, chain_, chain-extension) with seeded arguments on a capturing socket, "
+      "scripted replies through plain methods next to the low-level receive, conforming reply sequences through streaming "
+      "methods followed by a later exchange's frame. TLC validates every recorded event against ProxyGen.",
+      TRUST + "projection of captured frames to member names; argument values compared with serde_json::to_value",
+      "TLA+ specification of the declaration -> wire mapping (TLC-enumerated declarations) + compiled corpus + TLC validation of captured calls/replies",
+      "4/C12")
 claim("C13",
       "Idl.tla transcribes the Varlink grammar (the three name rules over character classes, types, members, comment "
       "placement) into a recursive-descent acceptor Parse over token lists; TLC checks on an enumerated space of "
@@ -197,6 +207,9 @@ def main():
         "engines": [
             {"name": "tlc", "path": "/opt/veriftools/tla/tla2tools.jar", "serves_properties": sorted(CLAIMED),
              "kind_free_text": "TLA+ explicit-state model checker; also validates traces recorded from the Rust harness"},
+            {"name": "corpus", "path": "/verif/corpus", "serves_properties": [x for x in ("C12", "C15", "C16") if x in CLAIMED],
+             "kind_free_text": "Rust crates generated by gen/*.py from TLC-enumerated declarations, compiled against /repo's "
+                               "macros / code generator and run; their NDJSON events are validated by TLC"},
             {"name": "zv", "path": "/verif/harness", "serves_properties": sorted(CLAIMED),
              "kind_free_text": "Rust conformance harness: scripted transports/listener/service on a poll-by-poll "
                                "executor; emits NDJSON traces that TLC validates"},
